@@ -21,8 +21,23 @@ def gen_case(rng, tier):
     y = [rng.randint(0, 1) for _ in range(n)] if klass != "ContinuousCarver" else [rng.randint(0, 30) for _ in range(n)]
     names = rng.sample(["alpha", "beta", "gamma", "delta", "x1", "x2", "zeta", "Aa", "BB", "k", "m9", "omega"], nf)
     nan_everywhere = rng.random() < 0.35   # several features with missing values (per-feature NaN flags)
+    categ_pair = rng.random() < 0.3     # two categorical features sharing a vocabulary, both with rare modalities
     for f in names:
         t = rng.choice(["quant", "quant", "categ", "ordinal", "idlike"])
+        if categ_pair and f in names[:2]:
+            t = "categ"
+            types[f] = t
+            # overlapping but different frequent modalities: a value frequent in one column is unseen in the other
+            vals = ["a", "b", "c"] if f == names[0] else ["c", "d", "e"]
+            col = [vals[(rng.randrange(len(vals)) + (y[i] % 2 if rng.random() < 0.4 else 0)) % len(vals)] for i in range(n)]
+            rare = ["zz", "q"] if f == names[0] else ["zz", "yy"]
+            for i in rng.sample(range(n), max(2, n // 40)):
+                col[i] = rng.choice(rare)
+            if nan_everywhere or rng.random() < 0.4:
+                for i in rng.sample(range(n), n // 10):
+                    col[i] = NAN
+            X[f] = encs(col)
+            continue
         if t == "idlike" or (nf >= 3 and f == names[-1] and rng.random() < 0.3) or (
                 nf >= 3 and f == names[-2] and rng.random() < 0.3):
             # id-like qualitative feature (every modality rarer than min_freq): dropped at fit
@@ -130,7 +145,7 @@ class C10(Prop):
                    "fits test"]
 
     def generate(self, rng, tier):
-        return [gen_case(rng, tier) for _ in range(24 if tier == "quick" else 300)]
+        return [gen_case(rng, tier) for _ in range(40 if tier == "quick" else 300)]
 
     def search_cases(self, rng, neighbours, rnd):
         return [gen_case(rng, "quick") for _ in range(16)]
